@@ -203,7 +203,7 @@ def finish(pid, tier, res, t0, level="model_checking", rule="", assumptions=(), 
             hits[k["signature"]][1] += 1
         else:
             new.append((sig, replay, tag))
-    rdir = os.path.join(VERIF, "replays", pid)
+    rdir = os.path.join(VERIF, "replays", pid) if os.path.realpath(REPO) == "/repo" else os.path.join(BUILD, "replays_scratch", pid)
     lines = []
     if new or res.errors:
         os.makedirs(rdir, exist_ok=True)
@@ -253,8 +253,10 @@ def finish(pid, tier, res, t0, level="model_checking", rule="", assumptions=(), 
         "level": level, "coverage": cov, "assumptions": list(assumptions),
         "wall_s": round(time.time() - t0, 2), "violations": len(seen) + len(res.errors),
     }
-    os.makedirs(os.path.join(VERIF, "evidence"), exist_ok=True)
-    with open(os.path.join(VERIF, "evidence", pid + ".json"), "w") as f:
+    # runs against a scratch tree (VERIF_REPO=...) are trials, not evidence: keep them out of evidence/
+    evdir = os.path.join(VERIF, "evidence") if os.path.realpath(REPO) == "/repo" else os.path.join(BUILD, "evidence_scratch")
+    os.makedirs(evdir, exist_ok=True)
+    with open(os.path.join(evdir, pid + ".json"), "w") as f:
         json.dump(ev, f, indent=1)
     print("%s %s: states=%s transitions=%s executions=%s outcomes=%d caps=%d wall=%.1fs" % (
         pid, tier, st.get("states", 0), st.get("transitions", 0), st.get("executions", 0),
